@@ -7,7 +7,15 @@
 (***************************************************************************)
 EXTENDS Integers, Sequences, SequencesExt, BigInt
 
-Concat(seqs) == FoldLeft(LAMBDA acc, s : acc \o s, <<>>, seqs)
+\* concatenation of a sequence of sequences, divide and conquer: O(n log n)
+\* copying instead of the O(n^2) of a left fold (70 000-element lists)
+RECURSIVE CatDC(_, _, _)
+CatDC(ss, lo, hi) ==
+  IF lo > hi THEN <<>>
+  ELSE IF lo = hi THEN ss[lo]
+  ELSE LET mid == (lo + hi) \div 2 IN CatDC(ss, lo, mid) \o CatDC(ss, mid + 1, hi)
+
+Concat(seqs) == LET ss == seqs \o <<>> IN CatDC(ss, 1, Len(ss))
 
 \* TLC evaluates [i \in S |-> e] lazily and re-evaluates e on every application;
 \* Force turns it into an explicit tuple (evaluated once)
